@@ -52,13 +52,16 @@ func (c call) String() string { return fmt.Sprintf("%s(%d)", c.op, c.v) }
 
 func setOf(mask int) ordSet {
 	var s ordSet
-	for v := 0; v < lin.Keys; v++ {
+	for v := 0; v < nvals; v++ {
 		if mask>>uint(v)&1 == 1 {
 			s = append(s, v)
 		}
 	}
 	return s
 }
+
+// nvals is the value universe {a,b} of the scenarios (the model state has room for lin.Keys).
+const nvals = 2
 
 type layout struct {
 	name string
@@ -73,10 +76,10 @@ type seth struct {
 
 func (x *seth) Ops() []seqmc.Op {
 	var ops []seqmc.Op
-	for v := 0; v < lin.Keys; v++ {
+	for v := 0; v < nvals; v++ {
 		ops = append(ops, seqmc.Op{Name: "Add", A: v}, seqmc.Op{Name: "Remove", A: v}, seqmc.Op{Name: "Has", A: v})
 	}
-	return append(ops, seqmc.Op{Name: "Has", A: lin.Keys}, seqmc.Op{Name: "Len"})
+	return append(ops, seqmc.Op{Name: "Has", A: nvals}, seqmc.Op{Name: "Len"})
 }
 func (x *seth) Apply(op seqmc.Op) *seqmc.Fail {
 	switch op.Name {
@@ -153,7 +156,7 @@ func (r *rec) do(th int, c call) {
 		r.groups[th] = append(r.groups[th], g)
 	case "Len":
 		var g lin.Group
-		for v := 0; v < lin.Keys; v++ {
+		for v := 0; v < nvals; v++ {
 			g.Idx = append(g.Idx, len(r.ops[th]))
 			r.ops[th] = append(r.ops[th], lin.Op{Kind: "Has", Key: v, Thread: th*10 + 100 + v, Inv: inv, Ret: ret})
 		}
@@ -235,7 +238,7 @@ func scenario(lay layout, prog [][]call, bound, raceBound int) schk.Scenario {
 			// after quiescence: Has of every value, Len and Slice must agree with each other
 			n := 0
 			var final [lin.Keys]bool
-			for v := 0; v < lin.Keys; v++ {
+			for v := 0; v < nvals; v++ {
 				final[v] = r.s.Has(v)
 				if final[v] {
 					n++
@@ -251,7 +254,7 @@ func scenario(lay layout, prog [][]call, bound, raceBound int) schk.Scenario {
 			}
 			// derived accounting (only when no composite call took part): #succ.Add - #succ.Remove = final - initial
 			if len(groups) == 0 {
-				for v := 0; v < lin.Keys; v++ {
+				for v := 0; v < nvals; v++ {
 					want := 0
 					if final[v] {
 						want++
